@@ -72,6 +72,8 @@ func runC11(r *Run) {
 	r.anchor("parser entry", "risc.Parse")
 	r.floor("R11.1", 120)
 	r.floor("R11.3", 45)
+	r.floor("R11.8", 14)
+	ruleParseIntWidth(r, "R11.8")
 	r.floor("R11.4", 45)
 	r.floor("R11.6", 45)
 
@@ -575,4 +577,40 @@ func bindingVerdict(code *Term, rows []*Term) (string, string) {
 		sort.Strings(want)
 	}
 	return "binding", fmt.Sprintf("Run uses operands %v, the RV32IM row uses %v", have, want)
+}
+
+// ruleParseIntWidth (R11.8): every immediate and offset is parsed as a decimal
+// 32-bit integer. A wider parse followed by the int32 conversion silently wraps an
+// operand that does not fit (`lw t0, 4294967300(t1)` would be accepted with offset 4)
+// instead of being rejected.
+func ruleParseIntWidth(r *Run, rule string) {
+	p := r.W.Pkg("risc")
+	if p == nil {
+		r.undecided(rule, "risc", token.NoPos, "package risc not loaded")
+		return
+	}
+	for _, f := range p.Syntax {
+		for _, d := range f.Decls {
+			fd, ok := d.(*ast.FuncDecl)
+			if !ok || fd.Body == nil {
+				continue
+			}
+			n := 0
+			ast.Inspect(fd.Body, func(m ast.Node) bool {
+				call, ok := m.(*ast.CallExpr)
+				if !ok || len(call.Args) != 3 {
+					return true
+				}
+				fn, ok := typeutil.Callee(p.TypesInfo, call).(*types.Func)
+				if !ok || fn.FullName() != "strconv.ParseInt" {
+					return true
+				}
+				n++
+				base, ok1 := constInt64(p.TypesInfo.Types[call.Args[1]])
+				bits, ok2 := constInt64(p.TypesInfo.Types[call.Args[2]])
+				r.check(ok1 && ok2 && base == 10 && bits == 32, rule, fmt.Sprintf("risc.%s:ParseInt#%d", declName(fd), n), call.Pos(), "operand text is parsed as a decimal 32-bit integer (base %d, %d bits): a value that does not fit is rejected, not wrapped by the int32 conversion", base, bits)
+				return true
+			})
+		}
+	}
 }
